@@ -54,6 +54,12 @@ fn main() {
         }
         ("C01", None) => checks::c01::run(&ctx),
         ("C01", Some(r)) => checks::c01::replay(&ctx, &r["case"]),
+        ("C14", None) => checks::c14::run(&ctx),
+        ("C14", Some(r)) => checks::c14::replay(&ctx, &r["case"]),
+        ("C14DBG", _) => {
+            checks::c14::debug(&args);
+            std::process::exit(0);
+        }
         ("C13", None) => checks::c13::run(&ctx),
         ("C13", Some(r)) => checks::c13::replay(&ctx, &r["case"]),
         ("C13DBG", _) => {
